@@ -7,7 +7,9 @@ package vrt
 import (
 	"encoding/hex"
 	"fmt"
+	"reflect"
 	"runtime"
+	"strconv"
 )
 
 // Entry is one nondeterministic value in call order.
@@ -227,4 +229,35 @@ func NativeOnly(f func()) {
 	cur.nativeOnly = true
 	defer func() { cur.nativeOnly = false }()
 	f()
+}
+
+// FieldSpec describes one field of a struct type built at run time.
+type FieldSpec struct {
+	Name     string
+	Type     reflect.Type
+	Plenc    string // text of the plenc tag (arbitrary bytes)
+	JSON     string
+	HasPlenc bool
+	HasJSON  bool
+}
+
+// StructOf builds a struct type. Natively this is reflect.StructOf with the
+// tag texts quoted into a conventional struct tag; under the engine the tag
+// texts stay symbolic.
+func StructOf(fields []FieldSpec) reflect.Type {
+	sf := make([]reflect.StructField, len(fields))
+	for i, f := range fields {
+		tag := ""
+		if f.HasPlenc {
+			tag = "plenc:" + strconv.Quote(f.Plenc)
+		}
+		if f.HasJSON {
+			if tag != "" {
+				tag += " "
+			}
+			tag += "json:" + strconv.Quote(f.JSON)
+		}
+		sf[i] = reflect.StructField{Name: f.Name, Type: f.Type, Tag: reflect.StructTag(tag)}
+	}
+	return reflect.StructOf(sf)
 }
